@@ -599,9 +599,9 @@ func sizeClass(n int) string {
 
 func run(r *vrt.Run) {
 	r.Rule("a case is one multi-generation commit history (base trie + 1..5 generations of random modifications incl. delete-all/re-insert, cancelled updates, batches, >100 updates for the parallel committer, commit of a Copy) over a key pool (families as in C06); every third history is mirrored into real memory-backed triedb path and hash databases; non-trivial signature = (key family, value class, generations, deletions in a node set, embedded nodes present, parallel committer, delete-all, triedb mirrored, root shape change, empty trie committed, copy committed, Hash between updates, final size class)")
-	n := r.N(2500, 100000)
+	n := r.N(2500, 60000)
 	if r.Race() {
-		n = r.N(400, 12000)
+		n = r.N(250, 6000)
 	}
 	vrt.Par(n, 0, func(i int) { runHistory(r, i) })
 	min := int64(10)
